@@ -14,10 +14,10 @@ PARTIAL = ('proved (all vector lengths, all option values): real budget/componen
            '|u_component|, root-sum-square = u(y) when the influences are uncorrelated, influences=[...] lists exactly the requested '
            'ones in order, intermediate=True lists the declared intermediates except y, options only filter/sort/truncate (sorted by u '
            'descending by default); complex budget = one row per real influence and one u_bar row per complex pair UNDER the invariant '
-           'that both components of each complex influence are present and adjacent, with the values of the INDEPENDENT vectors (= '
-           'u_bar(u_component) for independent influences). Refuted on the faithful model (known findings): partial use of a complex '
-           'input mis-pairs and drops the next influence; a real result lists a complex influence as two rows; components(z, '
-           'intermediate=True) raises AttributeError on a real intermediate; dependent influences get u=0 in the complex budget (new). '
+           'that both components of each complex influence are present and adjacent, each row = u_bar(u_component(y, influence)) for '
+           'independent AND dependent influences (C17-dependent-zero repaired); components() = budget rows without labels for every y and '
+           'mode (C17-components-attr repaired). Refuted on the faithful model (known findings): partial use of a complex input mis-pairs '
+           'and drops the next influence; a real result lists a complex influence as two rows. '
            'The positional invariant is derived from "both components present" + the session invariant (consecutive uids, shared complex id). '
            'Not proved, validated by correspondence only: complex intermediate=True and complex influences=[...] rows, label texts. '
            'Sorting is modelled as a stable insertion '
@@ -534,8 +534,8 @@ def spec_check_single(m, ns):
     def present(xr):
         n = xr._node
         return any((n in p._u_components) or (n in p._d_components) for p in parts)
-    expected = {}      # the known behaviour (see known_findings: two rows for a complex influence of a real y,
-                       # 0.0 for a dependent influence of a complex y) -- so that any OTHER deviation is still reported
+    expected = {}      # the known behaviour (see known_findings: two rows for a complex influence of a real y)
+                       # -- so that any OTHER deviation is still reported
     ideal = {}         # what the property text asks for; accepted as well (a repaired tree is not a failing input)
     cls = set()        # known-finding classes whose effect on this model cannot be predicted (-> skipped)
     for v in m['reals']:
@@ -543,7 +543,6 @@ def spec_check_single(m, ns):
         if not x.is_elementary or not present(x): continue
         c = rp.u_component(y, x)
         ideal[x.uid] = expected[x.uid] = u_bar_exact(c) if yc else abs(c)
-        if yc and not x._node.independent: expected[x.uid] = 0.0
     for v in m['cplx']:
         z = ns[v]
         if not z.is_elementary: continue
@@ -557,7 +556,6 @@ def spec_check_single(m, ns):
             continue
         expected[z.uid] = u_bar_exact(c)
         if not (pr and pi): cls.add('complex-partial-use')
-        if not (z.real._node.independent and z.imag._node.independent): expected[z.uid] = 0.0
     try:
         got = rp.budget(y, trim=0)
     except Exception as ex:
@@ -657,11 +655,11 @@ def spec_check_single(m, ns):
         try:
             rp.components(y, intermediate=True, trim=0)
         except AttributeError as ex:
-            if yc: return {'class': ['components-intermediate-real-node'], 'what': 'components(intermediate=True) raised %r' % ex}
+            # (was the known finding C17-components-attr for a complex y; repaired, so a failure again)
             return {'class': sorted(cls), 'what': 'components(intermediate=True) raised %r' % ex}
     return None
 
-KNOWN_CLASSES = {'complex-partial-use', 'real-result-complex-influence', 'components-intermediate-real-node', 'complex-dependent-zero'}
+KNOWN_CLASSES = {'complex-partial-use', 'real-result-complex-influence'}    # C17-components-attr and C17-dependent-zero are FIXED
 
 def is_known(f):
     c = set(f.get('class') or [])
